@@ -58,6 +58,12 @@ theorem calls_qw (s : Stmt) (h : s.isTxCtl = false) : ∀ c ∈ calls s, c.isQW 
   | commit => simp [Stmt.isTxCtl] at h
   | rollback => simp [Stmt.isTxCtl] at h
   | commitConflict => simp [Stmt.isTxCtl] at h
+  | insertMany t rows =>
+    intro c hc
+    simp only [calls, List.mem_flatMap] at hc
+    obtain ⟨r, _, hr⟩ := hc
+    simp at hr
+    rcases hr with rfl | rfl <;> rfl
   | _ => simp [calls, Call.isQW]
 
 theorem flat_qw (b : List Stmt) (h : b.all (!·.isTxCtl) = true) : ∀ c ∈ flat b, c.isQW = true := by
